@@ -121,7 +121,7 @@ func stop(nodes map[string]*cluster.ClusterNode) {
 	}
 }
 
-var users = []string{"alice", "bob", "carol", "dave"}
+var users = []string{"alice", "alice_eu", "bob", "bob2"} // two pairs in which one id extends the other (records of such users are adjacent in key order)
 
 func doc(u string, i int) sl.Doc {
 	return sl.Doc{"a": int64(i), "owner": u, "pad": strings.Repeat("x", 50+i)}
